@@ -535,10 +535,16 @@ func emitBuildEnv(c *lib.Ctx, cs cfgSpec, ts tgtSpec, cl caller, o obs, nontrivi
 
 func emitHashEq(c *lib.Ctx, cs cfgSpec, ts tgtSpec, c1, c2 caller, o1, o2 obs) {
 	sr, sc := bytes.Equal(o1.RuleHash, o2.RuleHash), bytes.Equal(o1.CfgHash, o2.CfgHash)
-	c.Case(lib.App("CRuleHashEq", o1.Tgt.coq(), coqEnv(c1), coqEnv(c2), lib.Bool(sr)),
-		caseJS{Kind: "rule-hash-eq", Tgt: &ts, Caller: c1, Caller2: c2, Same: &sr}, fmt.Sprint("rh", ts, c1, c2), ts.HasPass && len(ts.PassEnv) > 0)
-	c.Case(lib.App("CConfigHashEq", o1.Cfg.coq(), coqEnv(c1), coqEnv(c2), lib.Bool(sc)),
-		caseJS{Kind: "config-hash-eq", Cfg: &cs, Caller: c1, Caller2: c2, Same: &sc}, fmt.Sprint("ch", cs, c1, c2), len(cs.PassEnv) > 0)
+	// a target without pass_env / a configuration without passenv and [buildenv] has nothing caller-dependent to hash:
+	// keep those cases only when the implementation says the hashes differ (then the model must explain it)
+	if ts.HasPass || !sr {
+		c.Case(lib.App("CRuleHashEq", o1.Tgt.coq(), coqEnv(c1), coqEnv(c2), lib.Bool(sr)),
+			caseJS{Kind: "rule-hash-eq", Tgt: &ts, Caller: c1, Caller2: c2, Same: &sr}, fmt.Sprint("rh", ts, c1, c2), ts.HasPass && len(ts.PassEnv) > 0)
+	}
+	if len(cs.PassEnv) > 0 || !sc {
+		c.Case(lib.App("CConfigHashEq", o1.Cfg.coq(), coqEnv(c1), coqEnv(c2), lib.Bool(sc)),
+			caseJS{Kind: "config-hash-eq", Cfg: &cs, Caller: c1, Caller2: c2, Same: &sc}, fmt.Sprint("ch", cs, c1, c2), len(cs.PassEnv) > 0)
+	}
 }
 
 func fresh(r *lib.Rng, old string) string {
@@ -565,7 +571,7 @@ func inProcess(c *lib.Ctx) {
 	logging.SetBackend(logging.NewLogBackend(io.Discard, "", 0))
 	state = core.NewDefaultBuildState()
 
-	n := c.Scale(200, 6000)
+	n := c.Scale(110, 5000)
 	for i := 0; i < n; i++ {
 		r := c.Rng.Fork()
 		cs, ts, cl := genCfg(r), genTgt(r), genCaller(r)
@@ -1148,8 +1154,8 @@ func endToEnd(c *lib.Ctx) {
 	real, err := filepath.EvalSymlinks(plz)
 	must(err)
 	plzDir := filepath.Dir(real)
-	nh := c.Scale(12, 150)
-	steps := c.Scale(7, 10)
+	nh := c.Scale(10, 150)
+	steps := c.Scale(6, 10)
 	base := e2e.Scratch("c10")
 	defer os.RemoveAll(base)
 	rngs := make([]*lib.Rng, nh)
